@@ -162,6 +162,8 @@ namespace booster {
 		///
 		inline const_buffer buffer(std::vector<char> const &d)
 		{
+			if(d.empty())
+				return const_buffer();
 			return buffer(&d.front(),d.size());
 		}
 		///
@@ -169,6 +171,8 @@ namespace booster {
 		///
 		inline mutable_buffer buffer(std::vector<char> &d)
 		{
+			if(d.empty())
+				return mutable_buffer();
 			return buffer(&d.front(),d.size());
 		}
 		///
